@@ -14,9 +14,11 @@
 (*         next link so that long chains occur; Reinit after every Error.    *)
 EXTENDS MC_BinanceL2, Json
 CONSTANTS MaxLen     \* steps per behaviour
-VARIABLES phase, hist, done
+VARIABLES phase, hist, done,
+          pick       \* simulation: the random draws of the NEXT step, made one step ahead (a state
+                     \* value is fully evaluated, so every use of a draw sees the same value)
 
-gvars == <<rule, chg, cut, snap, sq, book, conn, notices, nreinit, ndeliv, admitted, clean, last, phase, hist, done>>
+gvars == <<rule, chg, cut, snap, sq, book, conn, notices, nreinit, ndeliv, admitted, clean, last, phase, hist, done, pick>>
 
 ProjB(b) == [bids |-> OB!Levels(b.bids, "bids"), asks |-> OB!Levels(b.asks, "asks"), seq |-> b.seq]
 ProjS(s) == [processed |-> s.processed, lastId |-> s.lastId]
@@ -29,17 +31,17 @@ World == [i \in INSTR |-> [chg |-> chg[i], cut |-> cut[i], events |-> [k \in 1..
 
 \* ---------------------------------------------------------------- exhaustive
 GInitT == /\ Init
-          /\ phase = "run" /\ done = FALSE
+          /\ phase = "run" /\ done = FALSE /\ pick = 0
           /\ hist = <<[a |-> "Init", snap |-> snap, books |-> [i \in INSTR |-> ProjB(book[i])]]>>
 
 GStepT == /\ ~done /\ conn = "up" /\ Len(hist) <= MaxLen
           /\ (Dropped \/ Admitted \/ Error)
           /\ hist' = Append(hist, DeliverRec)
-          /\ UNCHANGED <<phase, done>>
+          /\ UNCHANGED <<phase, done, pick>>
 
 GFinishT == /\ ~done /\ (conn = "down" \/ Len(hist) = MaxLen + 1)
             /\ done' = TRUE
-            /\ UNCHANGED <<rule, chg, cut, snap, sq, book, conn, notices, nreinit, ndeliv, admitted, clean, last, phase, hist>>
+            /\ UNCHANGED <<rule, chg, cut, snap, sq, book, conn, notices, nreinit, ndeliv, admitted, clean, last, phase, hist, pick>>
 
 GSpecT == GInitT /\ [][GStepT \/ GFinishT]_gvars
 
@@ -47,42 +49,57 @@ GSpecT == GInitT /\ [][GStepT \/ GFinishT]_gvars
 CHANGE == [side : {"b", "a"}, p : PRICE, a : AMOUNT]
 Trivial == <<[side |-> "b", p |-> CHOOSE p \in PRICE : TRUE, a |-> 0]>>
 
-GInitR == /\ InitWith("Spot", [i \in INSTR |-> Trivial], [i \in INSTR |-> <<1>>], [i \in INSTR |-> 0])
-          /\ phase = "setup" /\ hist = << >> /\ done = FALSE
+\* Random draws (HOWTO "TLC pitfalls"): every draw is bound through a singleton set and stored in a
+\* state variable one step before it is used (a state value is fully evaluated, a LET is not).
+DrawPick == \E i \in {RandomElement(INSTR)}, r \in {RandomElement(1..3)}, k \in {RandomElement(1..MaxEvents)},
+               S \in {[j \in INSTR |-> RandomElement(0..MCM)]} :
+              pick' = [i |-> i, r |-> r, k |-> k, S |-> S]
 
-GSetup == /\ phase = "setup" /\ phase' = "run"
-          /\ LET r  == RandomElement(RULES)
-                 ch == [i \in INSTR |-> [j \in 1..MCM |-> RandomElement(CHANGE)]]
-                 ct == [i \in INSTR |-> RandomElement(Cuts(MCM, MaxEvents))]
-                 S  == [i \in INSTR |-> RandomElement(0..MCM)]
-             IN /\ rule' = r /\ chg' = ch /\ cut' = ct /\ snap' = S
-                /\ sq' = [i \in INSTR |-> Fresh(S[i])]
-                /\ book' = [i \in INSTR |-> TruthOf(ch[i], S[i])]
-          /\ UNCHANGED <<conn, notices, nreinit, ndeliv, admitted, clean, last, done>>
-          /\ hist' = <<InitRec("Init")>>
+GInitR == /\ InitWith("Spot", [i \in INSTR |-> Trivial], [i \in INSTR |-> <<1>>], [i \in INSTR |-> 0])
+          /\ phase = "setup" /\ hist = << >> /\ done = FALSE /\ pick = 0
+
+\* step 1: the world is drawn into the state variables chg, cut, snap, rule
+GSetup == /\ phase = "setup" /\ phase' = "open"
+          /\ \E r \in {RandomElement(RULES)},
+                ch \in {[i \in INSTR |-> [j \in 1..MCM |-> RandomElement(CHANGE)]]},
+                cs \in {[i \in INSTR |-> RandomElement(SUBSET (1..(MCM - 1)))]},
+                S \in {[i \in INSTR |-> RandomElement(0..MCM)]} :
+               rule' = r /\ chg' = ch /\ cut' = [i \in INSTR |-> AscSeq(cs[i] \cup {MCM})] /\ snap' = S
+          /\ UNCHANGED <<sq, book, conn, notices, nreinit, ndeliv, admitted, clean, last, done, hist>>
+          /\ DrawPick
+
+\* step 2: the first connection, computed from the (now fixed) world
+GOpen == /\ phase = "open" /\ phase' = "run"
+         /\ sq' = [i \in INSTR |-> Fresh(snap[i])]
+         /\ book' = [i \in INSTR |-> Truth(i, snap[i])]
+         /\ UNCHANGED <<rule, chg, cut, snap, conn, notices, nreinit, ndeliv, admitted, clean, last, done>>
+         /\ hist' = <<InitRec("Init")>>
+         /\ DrawPick
 
 NextLinkIdx(i) ==
   IF admitted[i] # << >> THEN (IF LastOf(admitted[i]) < NEv(i) THEN LastOf(admitted[i]) + 1 ELSE NEv(i))
   ELSE IF \E k \in 1..NEv(i) : Covers(rule, i, k, snap[i]) THEN CHOOSE k \in 1..NEv(i) : Covers(rule, i, k, snap[i])
   ELSE 1
 
+PickK == IF pick.r # 1 THEN NextLinkIdx(pick.i) ELSE ((pick.k - 1) % NEv(pick.i)) + 1
+
 GDeliver == /\ phase = "run" /\ ~done /\ conn = "up" /\ Len(hist) <= MaxLen
-            /\ LET i == RandomElement(INSTR)
-                   k == IF RandomElement(1..3) # 1 THEN NextLinkIdx(i) ELSE RandomElement(1..NEv(i))
-               IN DeliverDropped(i, k) \/ DeliverAdmitted(i, k) \/ DeliverError(i, k)
+            /\ (DeliverDropped(pick.i, PickK) \/ DeliverAdmitted(pick.i, PickK) \/ DeliverError(pick.i, PickK))
             /\ hist' = Append(hist, DeliverRec)
+            /\ DrawPick
             /\ UNCHANGED <<phase, done>>
 
 GReinit == /\ phase = "run" /\ ~done /\ conn = "down" /\ Len(hist) <= MaxLen
-           /\ ReinitWith([i \in INSTR |-> RandomElement(0..LenM(i))])
+           /\ ReinitWith(pick.S)
            /\ hist' = Append(hist, InitRec("Reinit"))
+           /\ DrawPick
            /\ UNCHANGED <<phase, done>>
 
 GFinishR == /\ phase = "run" /\ ~done /\ Len(hist) = MaxLen + 1
             /\ done' = TRUE
-            /\ UNCHANGED <<rule, chg, cut, snap, sq, book, conn, notices, nreinit, ndeliv, admitted, clean, last, phase, hist>>
+            /\ UNCHANGED <<rule, chg, cut, snap, sq, book, conn, notices, nreinit, ndeliv, admitted, clean, last, phase, hist, pick>>
 
-GSpecR == GInitR /\ [][GSetup \/ GDeliver \/ GReinit \/ GFinishR]_gvars
+GSpecR == GInitR /\ [][GSetup \/ GOpen \/ GDeliver \/ GReinit \/ GFinishR]_gvars
 
 Emit == done => PrintT(<<"SCN", ToJson([rule |-> rule, world |-> World, steps |-> hist])>>)
 =============================================================================
